@@ -329,11 +329,11 @@ def expected_sig(fn, v):
     """Independent transcription of the property text (not of the model) for the per-value signatures."""
     if fn == "tt":
         idx = v if v <= 21 else 22
-        bits = 1 | 2 | 4 | 8 | 16 | 32 | 512 | 1024
+        bits = 1 | 2 | 4 | 8 | 16 | 32 | 512 | 1024 | 2048 | 4096 | 8192 | 16384 | 32768 | 65536
         return (idx << 48) ^ (bits << 32) ^ v ^ (v << 7)
     if fn == "mat":
         idx = v if 1 <= v <= 5 else 0
-        return (idx << 48) ^ (3 << 32) ^ v
+        return (idx << 48) ^ ((3 | 16 | 32 | 64) << 32) ^ v
     if fn == "elf":
         if v <= 11:
             return v
@@ -551,7 +551,7 @@ class C18(SweepProp):
             "Non-trivial = distinct cases that load.")
 
     def gen(self, tier, rng):
-        return _mbi.gen_efi(rng, tier) + _mbi.gen_wellformed(rng, 40 if tier == "quick" else 400)
+        return _mbi.gen_efi(rng, tier) + _mbi.gen_wellformed(rng, 40 if tier == "quick" else 400) + _mbi.gen_scale(rng)
 
 
 @register
@@ -563,7 +563,8 @@ class C19(SweepProp):
             "classes and range ends for both layouts, u32-overflowing count*size / shndx*size. Non-trivial = distinct cases that load.")
 
     def gen(self, tier, rng):
-        return _mbi.gen_elf(rng, tier) + _mbi.gen_elfname(rng, tier) + _mbi.gen_wellformed(rng, 40 if tier == "quick" else 400)
+        return (_mbi.gen_elf(rng, tier) + _mbi.gen_elfname(rng, tier) + _mbi.gen_wellformed(rng, 40 if tier == "quick" else 400) +
+                _mbi.gen_scale(rng))
 
 
 @register
@@ -590,7 +591,8 @@ class C05(SweepProp):
             "fills outside the region; HSWEEP: information-request tags of every size 0..40. Non-trivial = distinct cases that load.")
 
     def gen(self, tier, rng):
-        return _mbi.gen_sizes(rng, 1 if tier == "quick" else 4) + _mbi.gen_fb(rng) + _mbi.gen_strings(rng, 2, 40) + _mbi.gen_wellformed(rng, 30)
+        return (_mbi.gen_sizes(rng, 1 if tier == "quick" else 4) + _mbi.gen_fb(rng) + _mbi.gen_strings(rng, 2, 40) +
+                _mbi.gen_wellformed(rng, 30) + _mbi.gen_scale(rng))
 
 
 @register
@@ -603,7 +605,8 @@ class C04(SweepProp):
             "field from the raw bytes at the specification's offsets. Non-trivial = distinct cases that load.")
 
     def gen(self, tier, rng):
-        return _mbi.gen_wellformed(rng, 300 if tier == "quick" else 3000) + _mbi.gen_fb(rng) + _mbi.gen_misc(rng) + _mbi.gen_efi(rng, "quick")[:200]
+        return (_mbi.gen_wellformed(rng, 300 if tier == "quick" else 3000) + _mbi.gen_fb(rng) + _mbi.gen_misc(rng) +
+                _mbi.gen_efi(rng, "quick")[:200] + _mbi.gen_scale(rng))
 
 
 @register
@@ -619,7 +622,7 @@ class C01(SweepProp):
     def gen(self, tier, rng):
         cases = (_mbi.gen_wellformed(rng, 100 if tier == "quick" else 1000) + _mbi.gen_sizes(rng, 1 if tier == "quick" else 3) +
                  _mbi.gen_strings(rng, 2, 60) + _mbi.gen_efi(rng, tier) + _mbi.gen_elf(rng, tier) + _mbi.gen_fb(rng) + _mbi.gen_misc(rng) +
-                 _mbi.gen_elfname(rng, tier))
+                 _mbi.gen_elfname(rng, tier) + _mbi.gen_scale(rng))
         # second placement: flush against the LOWER guard page for a sample
         extra = [c + " start" for c in cases[:: (7 if tier == "quick" else 2)] if c.startswith("SWEEP")]
         return cases + extra
@@ -644,6 +647,8 @@ class C15(PropDef):
     def gen(self, tier, rng):
         top = 96 if tier == "quick" else 256
         cases = ["CAST %s %d" % (c, s) for c in CAST_CODES for s in range(0, top + 1)]
+        # the backing slice may be longer than the tag (e.g. the first tag of a buffer holding more): 1..3 extra 8-byte units
+        cases += ["CAST %s %d %d" % (c, s, x) for c in CAST_CODES for s in range(8, 49) for x in (1, 2, 3)]
         return cases + _mbi.gen_sizes(rng, 1)
 
     def oracle(self, case, impl, config):
@@ -685,7 +690,7 @@ class C07(PropDef):
     def string_ctor_cases(self, rng, tier):
         cases = []
         for name, pre in (("cmdline", 0), ("loader", 0), ("module", 8)):
-            for n in list(range(0, 18)) + [31, 32, 33, 100]:
+            for n in list(range(0, 18)) + [31, 32, 33, 100, 255, 256, 257, 1000]:
                 for _ in range(2 if tier == "quick" else 8):
                     s = rand_utf8(rng, n)
                     if rng.random() < 0.15:
@@ -704,7 +709,7 @@ class C07(PropDef):
         cases = self.string_ctor_cases(rng, tier)
         reps = 6 if tier == "quick" else 40
         for name, (fixed, var) in CTOR_BLOB.items():
-            tails = [0] if var is None else list(range(0, 18)) + [24, 40, 47, 48, 64, 100]
+            tails = [0] if var is None else list(range(0, 18)) + [24, 40, 47, 48, 64, 100, 255, 256, 257, 1000, 4097]
             for tl in tails:
                 n = fixed + (tl * var if var and var > 1 else tl)
                 for k in range(reps if var is None else 2):
@@ -868,6 +873,10 @@ class C06(PropDef):
             cases.append("BUILD " + ",".join(mbi_op(rng, s) for s in rng.sample(MBI_SLOTS, len(MBI_SLOTS))))
         for ty in (0, 1, 21):
             cases.append("BUILD custom:%s" % hx(u32(ty) + b"\x01\x02"))
+        for n in (50, 300):
+            cases.append("BUILD " + ",".join(mbi_op(rng, rng.choice(["module", "smbios", "custom"])) for _ in range(n)))
+        for s_ in [x for x in MBI_SLOTS if x not in ("module", "smbios", "custom", "vbe")]:
+            cases.append("BUILD %s,%s,%s" % (mbi_op(rng, s_), mbi_op(rng, "meminfo"), mbi_op(rng, s_)))
         if tier == "thorough":
             fixed_ops = {s: mbi_op(rng, s) for s in small}
             for mask in range(1 << len(small)):
@@ -907,8 +916,10 @@ class C12(PropDef):
             for _ in range(200):
                 slots = [rng.choice(HDR_SLOTS) for _ in range(rng.randrange(0, 14))]
                 cases.append("HBUILD %d %s" % (arch, ",".join(hdr_op(rng, s) for s in slots) or "-"))
-            for n in range(0, 9):
+            for n in list(range(0, 9)) + [63, 64, 255, 256, 257, 1000]:
                 cases.append("HBUILD %d h_inforeq:%s" % (arch, hx(u16(rng.randrange(2)) + rbytes(rng, 4 * n))))
+            for s_ in HDR_SLOTS:
+                cases.append("HBUILD %d %s,%s,%s" % (arch, hdr_op(rng, s_), hdr_op(rng, "h_modalign"), hdr_op(rng, s_)))
         return cases
 
     def oracle(self, case, impl, config):
@@ -945,7 +956,7 @@ class C11(HSweepProp):
             "bytes at the specification's offsets. Non-trivial = distinct cases that load.")
 
     def gen(self, tier, rng):
-        return _mbi.gen_headers_wellformed(rng, 300 if tier == "quick" else 3000)
+        return _mbi.gen_headers_wellformed(rng, 300 if tier == "quick" else 3000) + _mbi.gen_headers_scale(rng)
 
 
 @register
@@ -959,7 +970,8 @@ class C09(HSweepProp):
             "flush against a PROT_NONE page, two poison fills, crash detection. Non-trivial = distinct cases that load.")
 
     def gen(self, tier, rng):
-        return _mbi.gen_headers_adversarial(rng, 300 if tier == "quick" else 3000) + _mbi.gen_headers_wellformed(rng, 50)
+        return (_mbi.gen_headers_adversarial(rng, 300 if tier == "quick" else 3000) + _mbi.gen_headers_wellformed(rng, 50) +
+                _mbi.gen_headers_scale(rng))
 
 
 @register
